@@ -26,6 +26,21 @@ INT_RANGES = {
 }
 
 
+ASCII_CLASSES = {
+    "is_ascii_digit": [(0x30, 0x39)],
+    "is_ascii_uppercase": [(0x41, 0x5A)],
+    "is_ascii_lowercase": [(0x61, 0x7A)],
+    "is_ascii_alphabetic": [(0x41, 0x5A), (0x61, 0x7A)],
+    "is_ascii_alphanumeric": [(0x30, 0x39), (0x41, 0x5A), (0x61, 0x7A)],
+    "is_ascii": [(0, 0x7F)],
+    "is_ascii_hexdigit": [(0x30, 0x39), (0x41, 0x46), (0x61, 0x66)],
+    "is_ascii_graphic": [(0x21, 0x7E)],
+    "is_ascii_control": [(0, 0x1F), (0x7F, 0x7F)],
+    "is_ascii_whitespace": [(0x09, 0x0A), (0x0C, 0x0D), (0x20, 0x20)],
+    "is_ascii_punctuation": [(0x21, 0x2F), (0x3A, 0x40), (0x5B, 0x60), (0x7B, 0x7E)],
+}
+
+
 def int_range(ty):
     ty = ty.strip()
     while ty.startswith("&"):
@@ -937,15 +952,8 @@ class Interp:
                         return out
                 if meth in ("wrapping_add", "wrapping_sub"):
                     return [(st, mk_obj("%s(%s, %s)" % (meth, show(xs[0]), show(xs[1])), ity))]
-                if meth in ("is_ascii_digit",) and len(xs) == 1:
-                    out = []
-                    for s2, t1 in self.fork_cmp(st, "ge", xs[0].lin, Lin.const(0x30)):
-                        if not t1:
-                            out.append((s2, mk_const(0, "bool")))
-                        else:
-                            for s3, t2 in self.fork_cmp(s2, "le", xs[0].lin, Lin.const(0x39)):
-                                out.append((s3, mk_const(1 if t2 else 0, "bool")))
-                    return out
+                if meth in ASCII_CLASSES and len(xs) == 1:
+                    return self.in_ranges(st, xs[0].lin, ASCII_CLASSES[meth])
         # Option / Result helpers on concrete variants
         if std and owner.startswith("std::option::Option") and args and args[0].k == "variant":
             v = args[0]
@@ -984,6 +992,27 @@ class Interp:
                 res in ("std::option::unwrap_failed", "std::result::unwrap_failed", "core::option::expect_failed"):
             return [(st, ("panic", ("panic", short(res), body.where(bb))))]
         return None
+
+    def in_ranges(self, st, lin, ranges):
+        """Fork on membership of `lin` in a union of closed ranges -> [(state, bool const)]."""
+        out = []
+        rest = [st]
+        for lo, hi in ranges:
+            nrest = []
+            for s1 in rest:
+                for s2, ge in self.fork_cmp(s1, "ge", lin, Lin.const(lo)):
+                    if not ge:
+                        nrest.append(s2)
+                        continue
+                    for s3, le in self.fork_cmp(s2, "le", lin, Lin.const(hi)):
+                        if le:
+                            out.append((s3, mk_const(1, "bool")))
+                        else:
+                            nrest.append(s3)
+            rest = nrest
+        for s1 in rest:
+            out.append((s1, mk_const(0, "bool")))
+        return out
 
     def _refine_obj(self, st, body, op, objv, vidx, vname):
         pl = op.get("c") or op.get("m")
@@ -1231,3 +1260,55 @@ def paths_in_region(paths, cons):
         if not z.empty:
             out.append(p)
     return out
+
+
+def byte_class(facts, fname, inline=None, arg_index=0):
+    """R-CLS: the exact set of u8 values for which a `fn(u8|&u8, ..) -> bool` returns true,
+    by abstract interpretation.  Returns (set, problems)."""
+    body = facts.body(fname)
+    if body is None:
+        return None, ["no body for " + fname]
+    it = Interp(facts, inline=inline or (lambda n: n in facts.bodies and facts.bodies[n].file == body.file))
+    pname = body.local_name(arg_index + 1) or "_%d" % (arg_index + 1)
+    st_args = [None] * body.arg_count
+    st_args[arg_index] = mk_obj("c", "u8")
+    # closures take their environment first
+    try:
+        paths = it.run_body(body, st_args)
+    except Unsupported as e:
+        return None, [str(e)]
+    acc = set()
+    problems = list(it.imprecise)
+    for p in paths:
+        lo, hi = p.zone.bounds("c") if "c" in p.zone.syms else (0, 255)
+        lo, hi = max(0, lo), min(255, hi)
+        if p.conds:
+            problems.append("opaque condition on path: %s" % (p.conds,))
+        if p.outcome[0] != "return":
+            problems.append("path %s: %s" % (p.zone.describe(), outcome_str(p.outcome)))
+            continue
+        v = p.outcome[1]
+        if v.k == "int" and v.lin is not None and v.lin.is_const():
+            if v.lin.c == 1:
+                acc.update(range(int(lo), int(hi) + 1))
+        else:
+            problems.append("non-constant result %s on %s" % (show(v), p.zone.describe()))
+    return acc, problems
+
+
+def fmt_class(cls):
+    if cls is None:
+        return "?"
+    out = []
+    xs = sorted(cls)
+    i = 0
+    while i < len(xs):
+        j = i
+        while j + 1 < len(xs) and xs[j + 1] == xs[j] + 1:
+            j += 1
+        a, b = xs[i], xs[j]
+        fa = chr(a) if 0x21 <= a <= 0x7e else "\\x%02x" % a
+        fb = chr(b) if 0x21 <= b <= 0x7e else "\\x%02x" % b
+        out.append(fa if a == b else "%s-%s" % (fa, fb))
+        i = j + 1
+    return " ".join(out)
